@@ -66,11 +66,9 @@ func (f *Ash) Call(s *slip.Scope, args slip.List, depth int) (result slip.Object
 	case slip.Fixnum:
 		result = shiftInteger(big.NewInt(int64(ti)), sh)
 	case slip.Octet:
-		if sh < 0 {
-			result = slip.Octet(uint64(ti) >> -sh)
-		} else {
-			result = slip.Octet(uint64(ti) << sh)
-		}
+		// An octet is an integer, the result is exact and does not wrap
+		// at 8 bits.
+		result = shiftInteger(big.NewInt(int64(ti)), sh)
 	case *slip.Bignum:
 		result = shiftInteger((*big.Int)(ti), sh)
 	default:
